@@ -83,13 +83,28 @@ def cmd_check(args):
             continue
         c = spec.CLASSES[cls]
         n = args.runs if args.runs else int(c[tier] * scale)
-        if n > 0:
-            jobs.append((cls, n, c.get("timeout", 20), args.first))
+        depth = args.depth
+        if depth:
+            if n > 0:
+                jobs.append((cls, n, c.get("timeout", 20) * (3 if depth > 1
+                                                              else 1),
+                             args.first, depth))
+        elif tier == "thorough":
+            # 70 % of the runs with the quick tier's bounds, 30 % deep
+            # (wider bounds, see dsim/depth.py)
+            n1, n2 = n - int(n * 0.3), int(n * 0.3)
+            if n1 > 0:
+                jobs.append((cls, n1, c.get("timeout", 20), args.first, 1))
+            if n2 > 0:
+                jobs.append((cls, n2, c.get("timeout", 20) * 3, args.first,
+                             2))
+        elif n > 0:
+            jobs.append((cls, n, c.get("timeout", 20), args.first, 1))
     cap = args.wall or float(os.environ.get(
         "VERIF_WALL_CAP", 240 if tier == "quick" else 2400))
     print("dsim check property=%s tier=%s VERIF_SEED=%d workers=%d jobs=%s" %
           (prop, tier, seed, nworkers,
-           [(j[0], j[1]) for j in jobs]))
+           [(j[0] + ("+deep" if j[4] > 1 else ""), j[1]) for j in jobs]))
     sys.stdout.flush()
     agg = runner.run_batch(spec, jobs, seed, known, nworkers, cap)
     wall_batch = time.time() - t0
@@ -116,7 +131,9 @@ def cmd_check(args):
             continue
         seen_inv[inv] = seen_inv.get(inv, 0) + 1
         sc = res.get("scenario")
-        to = spec.CLASSES[cls].get("timeout", 20)
+        deep_run = cls.endswith("+deep")
+        cls = cls.split("+")[0]
+        to = spec.CLASSES[cls].get("timeout", 20) * (3 if deep_run else 1)
 
         def evalfn(s, cls=cls, to=to):
             return runner.fork_eval(spec, cls, s, known, to)
@@ -147,8 +164,9 @@ def cmd_check(args):
         if final.get("verdict") != "violation" or \
                 final.get("invariant") != inv:
             small, final = sc, again
-        path = os.path.join(VERIF, "replays", "%s-%s-%d-%d.json" %
-                            (prop, cls, seed, idx))
+        path = os.path.join(VERIF, "replays", "%s-%s%s-%d-%d.json" %
+                            (prop, cls, "-deep" if deep_run else "", seed,
+                             idx))
         os.makedirs(os.path.dirname(path), exist_ok=True)
         rec = dict(property=prop, cls=cls, verif_seed=seed, run_index=idx,
                    scenario=small, invariant=inv,
@@ -249,7 +267,7 @@ def write_evidence(spec, prop, tier, seed, agg, wall, wall_batch, reported,
         probes_never_hit=never,
         counters=agg.counters,
         per_class=agg.per_class,
-        jobs=[dict(cls=j[0], runs=j[1]) for j in jobs],
+        jobs=[dict(cls=j[0], runs=j[1], depth=j[4]) for j in jobs],
         workers=nworkers,
         known_findings_seen=dict((k, v["n"]) for k, v in agg.known.items()),
         violations_reported=reported,
@@ -286,7 +304,7 @@ def cmd_replay(args):
     spec = load_spec(prop)
     known = load_known()
     res = runner.fork_eval(spec, rec["cls"], rec["scenario"], known,
-                           spec.CLASSES[rec["cls"]].get("timeout", 20) * 2)
+                           spec.CLASSES[rec["cls"]].get("timeout", 20) * 4)
     print(json.dumps(dict((k, res.get(k)) for k in
                           ("verdict", "invariant", "detail", "digest",
                            "error", "tail")), indent=1, default=repr))
@@ -323,6 +341,14 @@ def cmd_digests(args):
             out.append("%s %s %d %s %s %s" % (
                 prop, cls, i, r.get("digest"), r.get("verdict"),
                 (r.get("sched") or {}).get("interleaving")))
+        # the deep bounds of the thorough tier
+        for i in range(args.first, args.first + max(1, args.n // 3)):
+            sc = runner.make_scenario(spec, cls, seed, i, 2)
+            r = runner.fork_eval(spec, cls, sc, known,
+                                 spec.CLASSES[cls].get("timeout", 20) * 3)
+            out.append("%s %s+deep %d %s %s %s" % (
+                prop, cls, i, r.get("digest"), r.get("verdict"),
+                (r.get("sched") or {}).get("interleaving")))
     print("\n".join(out))
     return 0
 
@@ -335,6 +361,8 @@ def main(argv=None):
     c.add_argument("--tier", default=None)
     c.add_argument("--runs", type=int, default=0)
     c.add_argument("--first", type=int, default=0)
+    c.add_argument("--depth", type=int, default=0,
+                   help="1 = quick bounds, 2 = deep bounds (default: by tier)")
     c.add_argument("--cls", default=None)
     c.add_argument("--workers", type=int, default=0)
     c.add_argument("--wall", type=float, default=0)
